@@ -242,6 +242,11 @@ def part_b(ctx, tmp):
         size = [OutputSize.lighter, OutputSize.light, OutputSize.heavy, 3, 0, -2, 2, 4, 7][(n // 3) % 9]
         nb = rng.randint(2, 6)
         tgt = np.sort(np.array(rng.sample(list(np.linspace(wn[0] + 1, wn[-1] - 1, 40)), nb)))
+        ints = list(range(int(wn[0]) + 2, int(wn[-1]) - 1))
+        if kind != 'native' and n % 5 in (1, 2) and len(ints) >= nb:
+            # bin centres given as integers (np.arange-style grids are integer-typed): same bins, same stored widths
+            tgt = np.sort(np.array(rng.sample(ints, nb), dtype=np.int64))
+            ctx.count('integer-typed bin centres')
         widths = None
         if kind != 'native' and rng.random() < 0.5:
             widths = np.array([rng.uniform(10, 80) for _ in range(nb)])
